@@ -17,7 +17,7 @@ import json
 import warnings
 
 from .kernel import Streams, canon, digest_of, H, HarnessError
-from .simfs import SimWorld, SimCrash, ROOT
+from .simfs import SimWorld, SimCrash, SimInterrupt, ROOT
 
 import svgpathtools
 import svgpathtools.paths2svg as sp_p2s
@@ -406,6 +406,8 @@ class World:
                 status = "ok"
             except SimCrash:
                 status = "crashed"
+            except SimInterrupt:
+                status = "raised:SimInterrupt"
             except HarnessError:
                 raise
             except RecursionError:
@@ -547,10 +549,9 @@ class World:
                     self.violate(idx, "extra_file", {"changed": changed}, writer, tree.shape(), "-", fault)
                     return None
             if name not in changed:
-                self.violate(idx, "ack_without_data",
-                             {"file": name, "note": "writer returned normally but the file was not written",
-                              "changed": changed}, writer, tree.shape(), "-", fault)
-                return None
+                # not a verdict by itself (skipping an identical re-write would be legal): the read-back
+                # below decides whether the acknowledged content is really there
+                self.probe("acknowledged_write_left_file_untouched")
             for other in changed:
                 if other != name:
                     self.violate(idx, "extra_file", {"file": other}, writer, tree.shape(), "-", fault)
@@ -976,6 +977,9 @@ class World:
         if status == "crashed":
             return status
         if status != "ok":
+            if fired:       # e.g. an interrupt delivered inside the reader
+                self.bump(self.counters, "read_under_fault_raised")
+                return "raised"
             raise HarnessError("reader adapter raised %s" % status)
         oc = val
         if fired and oc[0] != "ok":
@@ -1150,6 +1154,10 @@ class Gen:
         end = None
         for _ in range(n):
             start = end if (end is not None and r.random() < 0.75) else None
+            if start is None and end is not None and r.random() < 0.3:
+                # a new subpath that starts a hair away from where the last one ended
+                k = r.choice([1e-7, 1e-6, 1e-10])
+                start = [end[0] + (abs(end[0]) * k or k), end[1]]
             s = self.seg(r, start)
             segs.append(s)
             end = s[-1]
@@ -1194,15 +1202,16 @@ class Gen:
     def fault(self, r, opname, world):
         if not self.faulting or self.nfaults >= self.maxfaults or r.random() > 0.55:
             return None
-        kinds = ["crash", "crash", "crash", "eio_write", "eio_write", "enospc_write", "short_write", "short_write",
-                 "eacces_open", "enoent_open", "emfile_open", "eio_close", "eexist_mkdir"]
+        kinds = ["crash", "crash", "crash", "interrupt", "interrupt", "eio_write", "eio_write", "enospc_write",
+                 "short_write", "short_write", "eacces_open", "enoent_open", "emfile_open", "eio_close",
+                 "eexist_mkdir"]
         if opname in ("disvg", "doc_display"):
             kinds += ["browser_error", "browser_error", "browser_error"]
         if opname in ("read", "doc_load", "sax_resave"):
             kinds += ["short_read", "short_read", "eio_read", "eio_read"]
         k = r.choice(kinds)
         f = {"kind": k}
-        if k == "crash":
+        if k in ("crash", "interrupt"):
             f["n"] = r.choice([1, 2, 3, 4, 5, 6, 8, 10, 12, 15, 20, 30, 60])
         elif k in ("eio_write", "enospc_write", "short_write"):
             f["n"] = r.choice([1, 1, 2, 3, 5, 8, 20, 50])
@@ -1537,6 +1546,7 @@ def derived(run_seed, tier, hist):
     target = cands[H("sweep-op", run_seed) % len(cands)]
     ev, wr = r["log"][target]["op_events"], r["log"][target]["op_writes"]
     plans = [[{"kind": "crash", "n": n}] for n in range(1, min(ev, 80) + 1)]
+    plans += [[{"kind": "interrupt", "n": n}] for n in range(1, min(ev, 80) + 1, 2)]
     for n in range(1, min(wr, 40) + 1):
         plans.append([{"kind": "eio_write", "n": n, "k": (3 if n % 2 else 0)}])
         plans.append([{"kind": "short_write", "n": n, "k": 1}])
